@@ -147,6 +147,8 @@ func (e *enum) Run(i int64, r *vf.Rec) {
 	ei, hi := int(i)/len(e.RH), int(i)%len(e.RH)
 	elev, rh := elevs[ei], e.RH[hi]
 	res := e.column(elev, rh)
+	r.Count("lattice_points", int64(len(e.T)))
+	r.MarkNontrivial()
 	if !e.positionIndependent(elev, rh, res, r) {
 		return
 	}
@@ -161,8 +163,6 @@ func (e *enum) Run(i int64, r *vf.Rec) {
 		n := e.column(elev, e.RH[hi+1])
 		next = &n
 	}
-	r.Count("lattice_points", int64(len(e.T)))
-	r.MarkNontrivial()
 	for k, t := range e.T {
 		vp, dew, wet, dT := res.Out[0][k], res.Out[1][k], res.Out[2][k], res.Out[3][k]
 		d := map[string]interface{}{"dryBulb": t, "humidity": rh, "elevation": elev, "vaporPressure": vp, "dewPoint": dew, "wetBulb": wet, "deltaT": dT}
